@@ -20,7 +20,7 @@ ASSUME = ['numba kernels, numpy trusted', 'table values positive (1e-40..1), nei
 
 PATTERNS = ['generic', 'incT', 'decT', 'saddle', 'flat', 'wide', 'tiny']
 LAYOUTS = ['xsec', 'k1', 'k2', 'k3']
-WNREQ = ['none', 'full', 'sub', 'single']
+WNREQ = ['none', 'full', 'sub', 'single', 'desc', 'bands']
 
 
 def axis_points(grid, log=False, fine=False):
@@ -81,12 +81,14 @@ def make_table(case):
 def build(case, x):
     nP, nT = case['shape']
     Tg, Pg, wn = fx.T_GRIDS[nT], fx.P_GRIDS[nP], fx.WN_GRIDS[4]
+    keep = bool(case.get('intT'))
+    Tg_ = np.array(Tg, dtype=np.int64) if keep else Tg      # intT: the temperature axis is an integer array
     if case['layout'] == 'xsec':
-        op = fx.TinyOp('H2O', wn, Tg, Pg, x, case['mode'])
+        op = fx.TinyOp('H2O', wn, Tg_, np.array(Pg, dtype=float), x, case['mode'], keep_dtype=keep)
     else:
         ng = int(case['layout'][1])
         w = np.array([0.2, 0.5, 0.3])[:ng]
-        op = fx.TinyK('H2O', wn, Tg, Pg, x, w / w.sum(), case['mode'])
+        op = fx.TinyK('H2O', wn, Tg_, np.array(Pg, dtype=float), x, w / w.sum(), case['mode'], keep_dtype=keep)
     return op, Tg, Pg, np.array(wn)
 
 
@@ -134,6 +136,10 @@ def case_fn(case):
         wreq, sel = wn.copy(), slice(None)
     elif req == 'sub':
         wreq, sel = wn[1:3].copy(), slice(1, 3)
+    elif req == 'desc':          # a sub-range listed in wavelength order (descending wavenumber)
+        wreq, sel = wn[[2, 1]].copy(), [2, 1]
+    elif req == 'bands':         # native points of three bands listed as middle, low, high
+        wreq, sel = wn[[2, 0, 3]].copy(), [2, 0, 3]
     else:
         wreq, sel = wn[2:3].copy(), slice(2, 3)
     isk = case['layout'] != 'xsec'
@@ -152,10 +158,11 @@ def case_fn(case):
                     T=T, P=P, exc=repr(e))
             continue
         got = np.asarray(got, dtype=float)
-        if float(T).is_integer() and float(P).is_integer():
-            # the same point given as Python ints (a layer temperature of 1000, a pressure of 100000)
+        if float(T).is_integer():
+            # the same point with the temperature (and the pressure when it is a whole number too) given as Python
+            # ints (a layer temperature of 1000, a pressure of 100000)
             try:
-                gi = np.asarray(op.opacity(int(T), int(P), wreq), dtype=float)
+                gi = np.asarray(op.opacity(int(T), int(P) if float(P).is_integer() else P, wreq), dtype=float)
                 r.eq(gi, got, 'integer-arguments', 'int-args/%s' % tag, rtol=0, atol=0, T=T, P=P)
             except Exception as e:
                 r.check(False, 'no-exception', 'exception/%s/int-args/%s' % (type(e).__name__, tag), T=T, P=P, exc=repr(e))
@@ -285,10 +292,12 @@ def explore(ctx):
         shapes += [(4, 4), (2, 4), (4, 3), (4, 2), (3, 4)]
         pats, wnreq = PATTERNS, WNREQ
     else:
-        pats, wnreq = ['generic', 'saddle', 'wide', 'tiny', 'flat'], ['none', 'sub', 'full']
+        pats, wnreq = ['generic', 'saddle', 'wide', 'tiny', 'flat'], ['none', 'sub', 'full', 'desc', 'bands']
     cases = []
     for shape, pat, mode, lay, wq in itertools.product(shapes, pats, ['linear', 'exp'], LAYOUTS, wnreq):
         cases.append({'shape': list(shape), 'pattern': pat, 'mode': mode, 'layout': lay, 'wn': wq})
+        if pat == 'generic' and wq == 'none':
+            cases.append({'shape': list(shape), 'pattern': pat, 'mode': mode, 'layout': lay, 'wn': wq, 'intT': True})
         if ctx.tier == 'thorough' and wq == 'none':
             for variant in range(1, 4 if pat in ('generic', 'wide', 'tiny') else 1):
                 cases.append({'shape': list(shape), 'pattern': pat, 'mode': mode, 'layout': lay, 'wn': wq,
